@@ -34,6 +34,13 @@ CHECKS = {
         design_ref="3/C14",
         note="Trusts TLC, the file writer of harness/drivers/histgc.py and the scaling 1 age unit = 1000 s; refusal rule = discarded units >= limit.",
     ),
+    "C11": dict(
+        category="model_checking",
+        technique="TLA+ spec EnvLayers (global/thread-local/overlay layers, swap scopes, shared detype cache, two threads) checked by TLC exhaustively (bounded depth) and by simulation; simulated behaviours replayed on a real Env with a commanded worker thread; every read path of both threads validated against EnvLayersTrace by TLC",
+        text="TLC checks ExitRestores, ThreadLocal, MaskConsistent, NoResidue and DetypeIsView on the implementation-shaped layer model; thousands of simulated operation sequences (nesting <= 3, exits by return and exception, masks, overlays mutated in place, inheritance by helper threads) are executed on the real Env and every sampled read path ([], in, get, iteration, detype) of both threads must match the model after every step.",
+        design_ref="3/C11",
+        note="Trusts TLC and operation-granularity interleaving (races inside one Env call are not modelled). Four genuine defects are recorded as known findings (named Dev_* actions).",
+    ),
 }
 
 ALL = [f"C{i:02d}" for i in range(1, 21)]
